@@ -28,6 +28,9 @@ type RouteItem struct {
 	// HoldAtPickupMs (mux): the Accept is held this long between taking the parked connection and
 	// acknowledging it (hook point mux.accept.gotConn)
 	HoldAtPickupMs int `json:"holdAtPickupMs,omitempty"`
+	// HoldAtGotInfoMs (grpc, no mux): the Dial is held this long between receiving the listener's address and
+	// connecting to it (hook point grpcbroker.dial.gotInfo; a slow address translator does the same)
+	HoldAtGotInfoMs int `json:"holdAtGotInfoMs,omitempty"`
 	// Raw (grpc kinds): the id is accepted with a plain Accept and served by the harness's own server, so that
 	// the listener can be closed at a chosen moment. Reaccept: the still-open raw listener of (accepting
 	// side, id) is closed and the id accepted again at once (new answer), then dialled.
